@@ -1,6 +1,6 @@
 (* C20 — byte-based substring with character-boundary check, substring_by_char. *)
 From Coq Require Import List NArith ZArith Arith Lia Bool.
-From AV Require Import Base.Utf8 Model.C20_Like Model.C20_Substr Proofs.C20_Utf8 Proofs.C20_Layout.
+From AV Require Import Base.ListX Base.Utf8 Model.C20_Like Model.C20_Substr Proofs.C20_Utf8 Proofs.C20_Layout.
 Import ListNotations.
 
 (* ------------------------------------------------------------------ is_char_boundary, on nat *)
@@ -245,17 +245,22 @@ Proof.
   destruct (substring_spec v start len) as [o|]; cbn [option_map]; [|reflexivity].
   specialize (IH (pre ++ v) post Hr ltac:(now apply Forall_app) Hpost).
   rewrite utf8_app, app_length, Nat2Z.inj_add, <- app_assoc in IH.
-  rewrite utf8_app, <- utf8_concat. rewrite <- utf8_concat in IH. rewrite IH. reflexivity.
+  rewrite utf8_app, utf8_concat. rewrite IH. reflexivity.
 Qed.
 
-Lemma substring_spec_scalars v start len o : scalars v -> substring_spec v start len = Some o -> scalars o.
+Lemma substring_spec_scalars_gen v ka kb o : scalars v ->
+  match take_bytes v ka, take_bytes v kb with
+  | Some pa, Some pb => Some (skipn (length pa) pb)
+  | _, _ => None
+  end = Some o -> scalars o.
 Proof.
-  intros Hv. unfold substring_spec.
-  destruct (take_bytes v _) as [pa|] eqn:Ea; [|discriminate]. destruct (take_bytes v (Z.to_nat _)) as [pb|] eqn:Eb; [|discriminate].
+  intros Hv. destruct (take_bytes v ka) as [pa|]; [|discriminate].
+  destruct (take_bytes v kb) as [pb|] eqn:Eb; [|discriminate].
   intros E. inversion E; subst. destruct (take_bytes_prefix _ _ _ Eb) as (rb & -> & _).
-  apply scalars_app_l in Hv. revert Hv. generalize (length pa). intros n Hv.
-  rewrite <- (firstn_skipn n pb) in Hv. now apply scalars_app_r in Hv.
+  apply scalars_app_l in Hv. now apply Forall_skipn'.
 Qed.
+Lemma substring_spec_scalars v start len o : scalars v -> substring_spec v start len = Some o -> scalars o.
+Proof. intros Hv. unfold substring_spec. now apply substring_spec_scalars_gen. Qed.
 
 (* every string the kernel returns is valid UTF-8 (or the call is an error) *)
 Theorem substring_valid_utf8_or_err bits start len : (1 <= bits)%Z ->
